@@ -1304,6 +1304,17 @@ func (vc *VC) fnEnvNames(st *State) *Env {
 
 func (vc *VC) ghostAssign(st *State, env *Env, target, value ast.Expr) {
 	v := env.tr(value)
+	if id, ok := target.(*ast.Ident); ok && vc.effective != nil {
+		for _, gl := range vc.effective.GhostLocals {
+			if gl.Name == id.Name {
+				if st.glocals == nil {
+					st.glocals = map[string]TV{}
+				}
+				st.glocals[id.Name] = v
+				return
+			}
+		}
+	}
 	lvs := env.lvals(target)
 	if len(lvs) != 1 {
 		panic(specError{"ghost assignment to a multi-location target"})
